@@ -5,9 +5,10 @@ the parallel variants run under a matrix of rayon pool sizes, repeated with arme
 and background spinner threads; every repetition is compared with the reference (hence with the serial result).
 Hook counters (H3) and the number of distinct row orders observed are reported as schedule-diversity evidence."""
 import json
+import os
 import random
 
-from vlib import core, pipeline as P, diffrun
+from vlib import core, pipeline as P, diffrun, sanitize
 from vgen import gen as G, gen2 as G2, emit as E, corpus
 
 LEVEL = 'exploration'
@@ -111,6 +112,66 @@ def run(ctx, only=None):
     ctx.cov['hook_counters'] = {n: totals[i] for i, n in enumerate(COUNTER_NAMES)}
     ctx.cov['perturbation_site_hits'] = sites[:13]
     ctx.cov.update(orders)
+    if (ctx.tier == 'thorough' or os.environ.get('VERIF_SAN')) and not only:
+        sanitizer_passes(ctx, cases)
+
+
+def small_rows(mk, rng, limit):
+    for _ in range(50):
+        rows = mk(rng)
+        if len(rows) <= limit:
+            return rows
+    return rows[:limit]
+
+
+def sanitizer_passes(ctx, cases):
+    """TSan (perturbation disarmed: sleeps would only hide races from a happens-before detector) on the corpus families and a
+    sample of the random programs; Miri (tree borrows, 3 rayon threads) on three tiny parallel programs."""
+    rng = random.Random(ctx.rng.getrandbits(48))
+    san = []
+    pick = [c for c in cases if c.name.startswith('k_')] + [c for c in cases if not c.name.startswith('k_')][:12]
+    for c in pick:
+        vs = [v for v in c.variants if v.par]
+        c2 = P.Case(c.name + 'ts', c.ref_prog, vs, meta=c.meta)
+        inputs = []
+        for j in c.jobs:
+            if j.variant.name == 'ser' and len(j.input_rows) <= 400:
+                inputs.append(j.input_rows)
+        for ii, rows in enumerate(inputs[:3]):
+            for v in vs:
+                c2.jobs.append(P.Job('%s_i%d_%s' % (c2.name, ii, v.name), c2, v, rows, params={'pool': rng.choice([2, 4, 8]), 'rep': 2}))
+        if c2.jobs:
+            san.append(c2)
+    ctx.cov['tsan'] = sanitize.run_cases_san(ctx, san, 'tsan', per_job_timeout=600)
+    # Miri
+    mc = []
+    for f in [corpus.tc, corpus.sp_count, corpus.funnel_lat]:
+        name, prog, input_rels, mk = f(rng)
+        v = E.Variant('par', prog, 'ascent_par')
+        c = P.Case('m_' + name, prog, [v], meta={'kind': 'miri'})
+        rows = small_rows(mk, rng, 10)
+        c.jobs.append(P.Job('m_%s_0' % name, c, v, rows, params={'pool': 3}))
+        mc.append(c)
+    reports = sanitize.miri_workspace(ctx, mc)
+    held = 0
+    for c in mc:
+        for j in c.jobs:
+            if j.result and j.result.reps and not j.result.panics:
+                db, _ = __import__('vgen.ref', fromlist=['x']).evaluate(c.ref_prog, G.input_to_dict(j.input_rows))
+                d = P.compare_step_to_db(c.ref_prog, j.result.reps[0][1][-1], db)
+                if d:
+                    ctx.violation('miri_' + j.id, {'case': c.name, 'summary': 'result under Miri differs: %s' % json.dumps(d)[:300]}, {'kind': 'diff'})
+                else:
+                    held += 1
+                    ctx.evaluations += 1
+    for (si, in_flight, err) in reports:
+        if err.startswith('INCOMPLETE'):
+            ctx.inconc('Miri run incomplete (shard %d): %s' % (si, err[-300:]))
+        elif '/repo/' in err:
+            ctx.violation('miri_ub_%d' % si, {'case': 'miri', 'report': err.split('\n')[-60:], 'summary': 'Miri: undefined behaviour with a frame in /repo'}, {'kind': 'miri_ub'})
+        else:
+            ctx.inconc('Miri report without a /repo frame (dependency): %s' % err[-300:])
+    ctx.cov['miri'] = {'programs': len(mc), 'executions_held': held, 'reports': len(reports), 'flags': sanitize.MIRI_FLAGS, 'threads': 3}
 
 
 def replay(ctx, path):
